@@ -330,6 +330,10 @@ def run(ctx):
             vals = j.vals
             N = int(vals.get("nl_max", "0") or 0)
             over = [c for c in counts if int(vals.get(c, "0") or 0) > N] if N > 0 else []
+            # the include sorter's grouping mode asks for one blank line (two line breaks) between two groups: another option that asks
+            # for more than N when N = 1 (the proviso of the property)
+            if N == 1 and str(vals.get("mod_sort_incl_import_grouping_enabled", "false")).lower() == "true":
+                over.append("mod_sort_incl_import_grouping_enabled")
             chunks = [unc.parse_chunk(ln) for ln in j.chunks]
             adj_seen = False
             # previous non-comment chunk of every chunk
